@@ -957,6 +957,29 @@ func c17_6(c *core.Ctx, p *core.Prog) {
 	}
 }
 
+// yieldProcessesAttrs: the loop body (a yield closure) hands Attributes() of its element to a package function.
+func yieldProcessesAttrs(yield *ssa.Function) bool {
+	res := false
+	for _, f := range core.WithClosures(yield) {
+		core.EachInstr(f, func(i ssa.Instruction) {
+			cl, ok := i.(*ssa.Call)
+			if !ok {
+				return
+			}
+			callee := cl.Call.StaticCallee()
+			if callee == nil || core.FnPkgPath(callee) != core.ObfPath {
+				return
+			}
+			for _, arg := range cl.Call.Args {
+				if g, ok := core.Canon(arg).(*ssa.Call); ok && pdataCallee(g) != nil && pdataCallee(g).Name() == "Attributes" {
+					res = true
+				}
+			}
+		})
+	}
+	return res
+}
+
 func c17_7(c *core.Ctx, p *core.Prog) {
 	a := newObfAnchors(p)
 	if !a.ok(c) {
@@ -1122,12 +1145,47 @@ func c17_7(c *core.Ctx, p *core.Prog) {
 					}
 				}
 			})
+			// iterator form: `for _, dp := range metric.X().DataPoints().All() { … dp.Attributes() … }` — the body is a
+			// yield closure handed to the iterator
+			if !okArm {
+				core.EachInstr(fn, func(i ssa.Instruction) {
+					cl, ok := i.(*ssa.Call)
+					if !ok || !core.GuardedBy(iff, true, cl) || len(cl.Call.Args) != 1 {
+						return
+					}
+					it, ok := cl.Call.Value.(*ssa.Call)
+					if !ok || pdataCallee(it) == nil || pdataCallee(it).Name() != "All" {
+						return
+					}
+					if !strings.Contains(valueLabel(it), "."+name+"()") {
+						return
+					}
+					mc, ok := cl.Call.Args[0].(*ssa.MakeClosure)
+					if !ok {
+						return
+					}
+					yield, _ := mc.Fn.(*ssa.Function)
+					if yield != nil && yieldProcessesAttrs(yield) {
+						okArm = true
+					}
+				})
+			}
 			c.Check(okArm, key, p.Pos(iff.Cond.Pos()), core.FuncName(fn), name+" data points have their attributes processed", "the "+name+" arm does not process the attributes of "+name+" data points")
 		}
 	}
 	// every attribute map of the data model is handed to the attribute processor: count call sites by owner type
 	owners := map[string]bool{}
-	for _, fn := range obfFuncs(c, p) {
+	var allFns []*ssa.Function
+	seenFn := map[*ssa.Function]bool{}
+	for _, top := range obfFuncs(c, p) {
+		for _, f := range core.WithClosures(top) { // bodies of range-over-func loops are closures
+			if !seenFn[f] {
+				seenFn[f] = true
+				allFns = append(allFns, f)
+			}
+		}
+	}
+	for _, fn := range allFns {
 		core.EachInstr(fn, func(i ssa.Instruction) {
 			cl, ok := i.(*ssa.Call)
 			if !ok {
